@@ -398,7 +398,6 @@ impl Prop for C08 {
                 expanded.push(u);
             }
         }
-        let mut crlf_auto_programs: Vec<String> = vec![];
         for u in expanded {
             // `reuse` (fn_delegation, unstable) is copied verbatim by rustfmt: not part of C08's alphabet
             if u.text.contains("reuse ") || u.text.contains("reuse\n") {
@@ -453,12 +452,10 @@ impl Prop for C08 {
                     let auto = !has_ns;
                     let crlf_first = matches!(term, Term::Crlf | Term::CrlfThenLf);
                     if auto && crlf_first {
-                        let pkey = u.key.split('/').next().unwrap_or("").to_string();
-                        let eligible = u.text.len() < 40 && lay == "LALL" && kv.is_empty();
-                        if eligible && !crlf_auto_programs.contains(&pkey) && crlf_auto_programs.len() < 3 {
-                            crlf_auto_programs.push(pkey.clone());
-                        }
-                        if !(eligible && crlf_auto_programs.contains(&pkey)) {
+                        // explored on three fixed programs (independent of the corpus order)
+                        let flat = lex::code_tokens(&u.text).join(" ");
+                        let fixed = ["fn f ( ) { }", "mod m { fn f ( ) { } }", "impl S { fn f ( & self ) { } }"];
+                        if !(fixed.contains(&flat.as_str()) && lay == "LALL" && kv.is_empty()) {
                             continue;
                         }
                     }
